@@ -4,6 +4,8 @@ package main
 
 import (
 	"fmt"
+	"os"
+	"path/filepath"
 	"go/ast"
 	"go/constant"
 	"go/token"
@@ -14,8 +16,33 @@ import (
 	"golang.org/x/tools/go/ssa"
 )
 
+// lemmaFiles: raw SMT lemma files (each must be unsat) that justify derived
+// axioms; checked for the properties that rely on the sorted-map model.
+var lemmaFileProps = map[string]bool{"C03": true, "C04": true, "C05": true, "C13": true}
+
+func (p *Prog) lemmaFileObligations(prop string) []*Obl {
+	if !lemmaFileProps[prop] {
+		return nil
+	}
+	files, _ := filepath.Glob(filepath.Join(verifDir, "spec", "lemmas", "*.smt2"))
+	sort.Strings(files)
+	var out []*Obl
+	for _, f := range files {
+		if strings.HasPrefix(filepath.Base(f), "_") {
+			continue
+		}
+		data, err := os.ReadFile(f)
+		if err != nil {
+			continue
+		}
+		out = append(out, &Obl{Unit: "spec.lemmas", Name: "spec.lemmas/" + strings.TrimSuffix(filepath.Base(f), ".smt2"), Kind: "lemma-file", Props: []string{prop}, Expect: "unsat", RawQuery: string(data), Where: f})
+	}
+	return out
+}
+
 func (p *Prog) lemmaObligations(prop string) []*Obl {
 	var out []*Obl
+	out = append(out, p.lemmaFileObligations(prop)...)
 	for _, l := range p.contracts.Lemmas {
 		rel := contains(l.Props, prop)
 		for _, c := range l.Prove {
